@@ -433,6 +433,22 @@ func init() {
 		"github.com/gofrs/uuid.FromString": extUUIDFromString,
 		"github.com/gofrs/uuid.NewV4":      extUUIDNewV4,
 
+		"internal/stringslite.Clone": func(fr *frame, a []value) value { return a[0] },
+		"strings.Clone":              func(fr *frame, a []value) value { return a[0] },
+		"google.golang.org/grpc/status.Errorf": func(fr *frame, a []value) value {
+			msg := fr.i.sprintf(fr, a[1], a[2].([]value))
+			return iface{t: fmtErrorType, v: &nativeObj{kind: "grpcStatus", data: &fmtErr{msg: msg, code: asInt64(a[0])}}}
+		},
+		"google.golang.org/grpc/status.Error": func(fr *frame, a []value) value {
+			return iface{t: fmtErrorType, v: &nativeObj{kind: "grpcStatus", data: &fmtErr{msg: a[1], code: asInt64(a[0])}}}
+		},
+		"(*net/http.Request).Context": func(fr *frame, a []value) value {
+			fn := fr.i.w.funcByName("context", "Background")
+			return call(fr.i, fr, token.NoPos, fn, nil)
+		},
+		"encoding/json.NewDecoder": newZeroPointee,
+		"encoding/json.NewEncoder": newZeroPointee,
+
 		// ---- misc ----------------------------------------------------
 		"net/http.StatusText": func(fr *frame, a []value) value { return httpStatusText(int(asInt64(a[0]))) },
 		"runtime.Gosched":     func(fr *frame, a []value) value { fr.i.sched.point("gosched"); return nil },
@@ -450,6 +466,14 @@ func init() {
 			return callBody(fr.i, fr, fn, a)
 		},
 	}
+}
+
+// newZeroPointee returns a pointer to the zero value of the pointee of the
+// function's (single, pointer-typed) result.
+func newZeroPointee(fr *frame, a []value) value {
+	rt := fr.fn.Signature.Results().At(0).Type()
+	var v value = zero(deref(rt))
+	return &v
 }
 
 // callBody runs fn's own body even though an external is registered for it.
